@@ -45,8 +45,9 @@ DESIGN_REF = "§2 C16"
 LEVEL_TEXT = ("Every interleaving with at most k preemptions (k=2 quick; k=3 for two threads, k=2 for three "
               "threads thorough) of 2-3 threads issuing 1-2 requests each through connections that share one "
               "_HttpConnImpl is executed on the real code, with a scheduling point before every bytecode of the "
-              "id generator and before every access to the shared object in do_request; each completed "
-              "execution is checked for distinct, gap-free ids.")
+              "id generator and before every access to the shared object in do_request; scenarios include the "
+              "very first use of a brand-new connection by both threads, caller-supplied ids, and one caller-owned "
+              "headers dict shared by all requests; each completed execution is checked for distinct, gap-free ids.")
 LEVEL_NOTE = ("Bounded: preemption bound, 2-3 threads, <= 2 requests per thread. Granularity is the CPython "
               "bytecode (GIL build); a free-threaded interpreter is outside the model. Bytecodes of do_request "
               "that do not touch the shared object get a scheduling point only in the 'full' scenarios "
@@ -55,7 +56,8 @@ LEVEL_NOTE = ("Bounded: preemption bound, 2-3 threads, <= 2 requests per thread.
 RULE = ("case = one schedule (deviation list) of one scenario, executed to completion on a freshly built "
         "world; distinct by construction of the depth-first enumeration of deviation lists. Non-trivial: a "
         "schedule in which a thread was preempted while holding the id lock (preemption inside the critical "
-        "region) or a thread was disabled by a held lock. Outcome = which request got which number.")
+        "region) or a thread was disabled by a held lock. Outcome = which request got which number (relative "
+        "to the warm-up request, or to the smallest number in scenarios without warm-up).")
 ASSUMPTIONS = [
     "threads interleave at bytecode boundaries (CPython with GIL); each bytecode is atomic",
     "the lock obtained from threading.Lock() provides mutual exclusion; no fairness is assumed",
